@@ -160,14 +160,14 @@ class MultiParticlePtCorrelations:
             elif order == 3:  # k = 4
                 N[order] = (
                     Pk[0] ** 4.0
-                    - 6.0 * Pk[1] ** 2.0 * Pk[0]
+                    - 6.0 * Pk[1] * Pk[0] ** 2.0
                     + 3.0 * Pk[1] ** 2.0
                     + 8.0 * Pk[2] * Pk[0]
                     - 6.0 * Pk[3]
                 )
                 D[order] = (
                     Wk[0] ** 4.0
-                    - 6.0 * Wk[1] ** 2.0 * Wk[0]
+                    - 6.0 * Wk[1] * Wk[0] ** 2.0
                     + 3.0 * Wk[1] ** 2.0
                     + 8.0 * Wk[2] * Wk[0]
                     - 6.0 * Wk[3]
@@ -197,7 +197,7 @@ class MultiParticlePtCorrelations:
                     - 15.0 * Pk[1] * Pk[0] ** 4.0
                     + 45.0 * Pk[0] ** 2.0 * Pk[1] ** 2.0
                     - 15.0 * Pk[1] ** 3.0
-                    - 40.0 * Pk[2] * Pk[0] ** 3.0
+                    + 40.0 * Pk[2] * Pk[0] ** 3.0
                     - 120.0 * Pk[2] * Pk[1] * Pk[0]
                     + 40.0 * Pk[2] ** 2.0
                     - 90.0 * Pk[3] * Pk[0] ** 2.0
@@ -210,7 +210,7 @@ class MultiParticlePtCorrelations:
                     - 15.0 * Wk[1] * Wk[0] ** 4.0
                     + 45.0 * Wk[0] ** 2.0 * Wk[1] ** 2.0
                     - 15.0 * Wk[1] ** 3.0
-                    - 40.0 * Wk[2] * Wk[0] ** 3.0
+                    + 40.0 * Wk[2] * Wk[0] ** 3.0
                     - 120.0 * Wk[2] * Wk[1] * Wk[0]
                     + 40.0 * Wk[2] ** 2.0
                     - 90.0 * Wk[3] * Wk[0] ** 2.0
@@ -229,7 +229,7 @@ class MultiParticlePtCorrelations:
                     + 210.0 * Pk[2] * Pk[1] ** 2.0
                     + 280.0 * Pk[2] ** 2.0 * Pk[0]
                     - 210.0 * Pk[3] * Pk[0] ** 3.0
-                    - 630.0 * Pk[3] * Pk[1] * Pk[0]
+                    + 630.0 * Pk[3] * Pk[1] * Pk[0]
                     - 420.0 * Pk[3] * Pk[2]
                     + 504.0 * Pk[4] * Pk[0] ** 2.0
                     - 504.0 * Pk[4] * Pk[1]
@@ -246,7 +246,7 @@ class MultiParticlePtCorrelations:
                     + 210.0 * Wk[2] * Wk[1] ** 2.0
                     + 280.0 * Wk[2] ** 2.0 * Wk[0]
                     - 210.0 * Wk[3] * Wk[0] ** 3.0
-                    - 630.0 * Wk[3] * Wk[1] * Wk[0]
+                    + 630.0 * Wk[3] * Wk[1] * Wk[0]
                     - 420.0 * Wk[3] * Wk[2]
                     + 504.0 * Wk[4] * Wk[0] ** 2.0
                     - 504.0 * Wk[4] * Wk[1]
@@ -257,19 +257,19 @@ class MultiParticlePtCorrelations:
                 N[order] = (
                     Pk[0] ** 8.0
                     - 28.0 * Pk[1] * Pk[0] ** 6.0
-                    - 210.0 * Pk[1] ** 2.0 * Pk[0] ** 4.0
+                    + 210.0 * Pk[1] ** 2.0 * Pk[0] ** 4.0
                     - 420.0 * Pk[1] ** 3.0 * Pk[0] ** 2.0
                     + 105.0 * Pk[1] ** 4.0
                     + 112.0 * Pk[2] * Pk[0] ** 5.0
-                    + 1120.0 * Pk[2] * Pk[1] * Pk[0] ** 3.0
+                    - 1120.0 * Pk[2] * Pk[1] * Pk[0] ** 3.0
                     + 1680.0 * Pk[2] * Pk[1] ** 2.0 * Pk[0]
                     + 1120.0 * Pk[2] ** 2.0 * Pk[0] ** 2.0
-                    + 1120.0 * Pk[2] ** 2.0 * Pk[1]
+                    - 1120.0 * Pk[2] ** 2.0 * Pk[1]
                     - 420.0 * Pk[3] * Pk[0] ** 4.0
                     + 2520.0 * Pk[3] * Pk[1] * Pk[0] ** 2.0
                     - 1260.0 * Pk[3] * Pk[1] ** 2.0
                     - 3360.0 * Pk[3] * Pk[2] * Pk[0]
-                    + 1260.0 * Pk[4] ** 2.0
+                    + 1260.0 * Pk[3] ** 2.0
                     + 1344.0 * Pk[4] * Pk[0] ** 3.0
                     - 4032.0 * Pk[4] * Pk[1] * Pk[0]
                     + 2688.0 * Pk[4] * Pk[2]
@@ -281,19 +281,19 @@ class MultiParticlePtCorrelations:
                 D[order] = (
                     Wk[0] ** 8.0
                     - 28.0 * Wk[1] * Wk[0] ** 6.0
-                    - 210.0 * Wk[1] ** 2.0 * Wk[0] ** 4.0
+                    + 210.0 * Wk[1] ** 2.0 * Wk[0] ** 4.0
                     - 420.0 * Wk[1] ** 3.0 * Wk[0] ** 2.0
                     + 105.0 * Wk[1] ** 4.0
                     + 112.0 * Wk[2] * Wk[0] ** 5.0
-                    + 1120.0 * Wk[2] * Wk[1] * Wk[0] ** 3.0
+                    - 1120.0 * Wk[2] * Wk[1] * Wk[0] ** 3.0
                     + 1680.0 * Wk[2] * Wk[1] ** 2.0 * Wk[0]
                     + 1120.0 * Wk[2] ** 2.0 * Wk[0] ** 2.0
-                    + 1120.0 * Wk[2] ** 2.0 * Wk[1]
+                    - 1120.0 * Wk[2] ** 2.0 * Wk[1]
                     - 420.0 * Wk[3] * Wk[0] ** 4.0
                     + 2520.0 * Wk[3] * Wk[1] * Wk[0] ** 2.0
                     - 1260.0 * Wk[3] * Wk[1] ** 2.0
                     - 3360.0 * Wk[3] * Wk[2] * Wk[0]
-                    + 1260.0 * Wk[4] ** 2.0
+                    + 1260.0 * Wk[3] ** 2.0
                     + 1344.0 * Wk[4] * Wk[0] ** 3.0
                     - 4032.0 * Wk[4] * Wk[1] * Wk[0]
                     + 2688.0 * Wk[4] * Wk[2]
